@@ -399,7 +399,7 @@ def ite(c, a, b):
         return a
     if c is False:
         return b
-    if isinstance(a, (SymReal, float)) or isinstance(b, (SymReal, float)):
+    if isinstance(a, (SymReal, float, fractions.Fraction)) or isinstance(b, (SymReal, float, fractions.Fraction)):
         return SymReal.mk(z3.If(c, _real_term(a), _real_term(b)))
     return SymInt.mk(z3.If(c, _int_term(a), _int_term(b)))
 
@@ -997,7 +997,28 @@ def sym_float(s):
         while i < len(items) and SymStr.lift(s[i]).isdigit():
             frac.append(items[i])
             i += 1
-    if i != len(items) or (not intpart and not frac):
+    if not intpart and not frac:
+        raise ValueError("could not convert string to float [symbolic]")
+    exp10 = 0
+    if i < len(items) and bor(s[i] == 'e', s[i] == 'E'):
+        # exponent: [+-]?digits ; its value is concretised by forking
+        j = i + 1
+        esign = 1
+        if j < len(items) and bor(s[j] == '+', s[j] == '-'):
+            esign = -1 if s[j] == '-' else 1
+            j += 1
+        edigits = []
+        while j < len(items) and SymStr.lift(s[j]).isdigit():
+            edigits.append(items[j])
+            j += 1
+        if not edigits or j != len(items):
+            raise ValueError("could not convert string to float [symbolic exponent]")
+        ev = 0
+        for d in edigits:
+            ev = ev * 10 + ((ord(d) - 48) if isinstance(d, str) else SymInt.mk(d - 48))
+        exp10 = esign * int(ev)
+        i = j
+    if i != len(items):
         raise ValueError("could not convert string to float [symbolic]")
     e = z3.RealVal(0)
     for d in intpart:
@@ -1006,6 +1027,10 @@ def sym_float(s):
     for d in frac:
         scale = scale / 10
         e = e + scale * z3.ToReal(z3.IntVal(ord(d) - 48) if isinstance(d, str) else d - 48)
+    if exp10 > 0:
+        e = e * (10 ** exp10)
+    elif exp10 < 0:
+        e = e / (10 ** (-exp10))
     return SymReal.mk(e * sign)
 
 
